@@ -231,6 +231,10 @@ def book_state(alias):
         if 'django_migrations' in tables:
             cur.execute('SELECT app, name FROM django_migrations ORDER BY id')
             out['migrations'] = [list(r) for r in cur.fetchall()]
+        if 'django_content_type' in tables:
+            # what post_migrate listeners (contenttypes) write about the project's models
+            cur.execute('SELECT app_label, model FROM django_content_type ORDER BY app_label, model')
+            out['contenttypes'] = [list(r) for r in cur.fetchall()]
     finally:
         conn.close()
     return out
